@@ -74,6 +74,60 @@ class Crash:
         return kind, frame
 
 
+def _record_cases(exe, cases, env, args, tag):
+    """when VF_RECORD_DIR is set (thorough tiers), keep a sample of what each worker ran, for the memcheck pass over the same cases"""
+    rd = os.environ.get("VF_RECORD_DIR")
+    if not rd or tag.endswith("h") or tag == "replay" or tag.startswith("mc"):
+        return
+    try:
+        budget = int(os.environ.get("VF_RECORD_CMDS", "1500"))
+        fn = os.path.join(rd, "%d-%s.json" % (os.getpid(), tag))
+        if os.path.exists(fn):
+            return
+        keep, n = [], 0
+        step = max(1, len(cases) // 400)
+        for cid, cmds in cases[::step]:
+            if sum(len(c) for c in cmds) > 200000:
+                continue
+            if n + len(cmds) > budget:
+                break
+            keep.append((cid, cmds))
+            n += len(cmds)
+        with open(fn, "w") as f:
+            json.dump({"exe": os.path.basename(exe), "env": env or {}, "args": list(args), "cases": keep}, f)
+    except OSError:
+        pass
+
+
+def memcheck_recorded(chk, plain_dir, record_dir, timeout=3000):
+    """run the recorded sample (one file per worker) under valgrind memcheck on the uninstrumented build, 16 at a time; absorbs the verdicts into chk"""
+    import concurrent.futures
+    jobs = []
+    for fn in sorted(os.listdir(record_dir)):
+        r = json.load(open(os.path.join(record_dir, fn)))
+        if r["cases"] and os.path.exists(os.path.join(plain_dir, r["exe"])):
+            jobs.append(r)
+    ncmd = 0
+
+    def one(r):
+        return run_memcheck(os.path.join(plain_dir, r["exe"]), [(c, cm) for c, cm in r["cases"]], chk.pid, env=r["env"], args=r["args"], timeout=timeout, tag="mc%d" % jobs.index(r))
+
+    with concurrent.futures.ThreadPoolExecutor(16) as ex:
+        for r, sh in zip(jobs, ex.map(one, jobs)):
+            chk.absorb(sh)
+            ncmd += sum(len(cm) for _, cm in r["cases"])
+    chk.extra["memcheck"] = "valgrind memcheck (uninstrumented build) over a recorded sample of this run's own cases: %d driver scripts, %d commands" % (len(jobs), ncmd)
+    shutil.rmtree(record_dir, ignore_errors=True)
+
+
+def record_dir(pid):
+    d = os.path.join(vbuild.BUILD, "record-%s-%d" % (pid, os.getpid()))
+    shutil.rmtree(d, ignore_errors=True)
+    os.makedirs(d)
+    os.environ["VF_RECORD_DIR"] = d
+    return d
+
+
 def run_script(exe, cases, env=None, timeout=600, tag="drv", args=()):
     """cases: list of (cid, [command lines]).  Runs them through a line-protocol driver.
     Returns (results, crashes): results[cid] = list of result lines (the trailing 'E ...' line included)
@@ -81,6 +135,7 @@ def run_script(exe, cases, env=None, timeout=600, tag="drv", args=()):
     reported once and the rest of the list is resumed in a new process."""
     d = scratch_dir(tag)
     results, crashes = {}, []
+    _record_cases(exe, cases, env, args, tag)
     e = dict(os.environ)
     e.update(ASAN_ENV)
     if env:
@@ -432,10 +487,7 @@ def run_fuzz(exe, pid, runs, seed, jobs=16, max_len=256, dict_path=None, timeout
     return sh
 
 
-def run_memcheck(exe_plain, cases, pid, tag="mc", timeout=3000):
-    """valgrind memcheck pass (uninitialised reads, invalid accesses that ASan's red zones miss) over a script on the
-    uninstrumented `plain` build.  Returns a Shard with one violation if memcheck reported anything."""
-    d = scratch_dir(tag)
+def _mc_once(exe_plain, cases, d, timeout, env, args):
     sp, op = os.path.join(d, "script"), os.path.join(d, "out")
     with open(sp, "w") as f:
         for cid, cmds in cases:
@@ -443,13 +495,58 @@ def run_memcheck(exe_plain, cases, pid, tag="mc", timeout=3000):
             for c in cmds:
                 f.write(c + "\n")
             f.write("END\n")
+    e = dict(os.environ)
+    e.update(env or {})
+    r = subprocess.run(["valgrind", "-q", "--error-exitcode=77", "--track-origins=yes", "--num-callers=12", exe_plain, sp, op] + list(args),
+                       stdout=subprocess.PIPE, stderr=subprocess.STDOUT, text=True, errors="replace", timeout=timeout, env=e)
+    return r.returncode, r.stdout
+
+
+def run_memcheck(exe_plain, cases, pid, tag="mc", timeout=3000, env=None, args=()):
+    """valgrind memcheck pass (uninitialised reads, invalid accesses that ASan's red zones miss) over a script on the
+    uninstrumented `plain` build.  Returns a Shard with one violation if memcheck reported anything; the witness is narrowed
+    to one case by bisection when the report reproduces on a single case."""
+    import re
+    d = scratch_dir(tag)
     sh = Shard()
     try:
-        r = subprocess.run(["valgrind", "-q", "--error-exitcode=77", "--track-origins=yes", "--num-callers=12", exe_plain, sp, op],
-                           stdout=subprocess.PIPE, stderr=subprocess.STDOUT, text=True, errors="replace", timeout=timeout)
+        rc, outp = _mc_once(exe_plain, cases, d, timeout, env, args)
     except subprocess.TimeoutExpired:
         sh.notes.append("memcheck watchdog fired (inconclusive)")
         return sh
+    sh.evaluations = sum(len(c) for _, c in cases)
+    sh.count("memcheck.commands", sh.evaluations)
+    sh.nontrivial("memcheck-%s-%d" % (pid, len(cases)))
+    sh.nontrivial("memcheck-%s-%s" % (pid, tag))
+    if rc == 77:
+        m = re.search(r"==\d+== ([A-Z][^\n]{10,80})\n((?:==\d+==\s+(?:at|by) 0x[0-9A-F]+: [^\n]*\n)+)", outp)
+        kind = re.sub(r"\W+", "-", m.group(1).lower())[:50] if m else "error"
+        fn = "?"
+        if m:
+            frames = re.findall(r"(?:at|by) 0x[0-9A-F]+: (\w+) \((\w+\.[ch]):\d+\)", m.group(2))
+            lib = [f for f, src in frames if os.path.exists(os.path.join(vbuild.REPO, src))]
+            fn = (lib or [f for f, _ in frames] or ["?"])[0]
+        wit = list(cases)
+        try:
+            for _ in range(12):
+                if len(wit) <= 1:
+                    break
+                half = wit[:len(wit) // 2]
+                rc2, _o = _mc_once(exe_plain, half, d, timeout, env, args)
+                wit = half if rc2 == 77 else wit[len(wit) // 2:]
+            if len(wit) == 1 and _mc_once(exe_plain, wit, d, timeout, env, args)[0] != 77:
+                wit = list(cases)
+        except subprocess.TimeoutExpired:
+            wit = list(cases)
+        script = []
+        for cid, cmds in wit[:3]:
+            script += cmds
+        sh.violation("%s/memcheck/%s/%s" % (pid, kind, fn), "valgrind memcheck: " + (m.group(0)[:300] if m else outp[-300:]),
+                     {"cmd": "valgrind %s <script>" % exe_plain, "driver": os.path.basename(exe_plain), "variant": "plain", "memcheck": True, "env": env or {}, "args": list(args),
+                      "script": [c[:100000] for c in script[:300]], "stderr": outp[-3000:]})
+    elif rc != 0:
+        raise Inconclusive("memcheck run failed rc=%d: %s" % (rc, outp[-400:]))
+    return sh
     sh.evaluations = sum(len(c) for _, c in cases)
     sh.count("memcheck.commands", sh.evaluations)
     sh.nontrivial("memcheck-%s-%d" % (pid, len(cases)))
@@ -459,7 +556,7 @@ def run_memcheck(exe_plain, cases, pid, tag="mc", timeout=3000):
         m = re.search(r"==\d+== ([A-Z][^\n]{10,80})\n==\d+==\s+at 0x[0-9A-F]+: (\w+)", r.stdout)
         kind = re.sub(r"\W+", "-", m.group(1).lower())[:50] if m else "error"
         fn = m.group(2) if m else "?"
-        sh.violation("%s/memcheck/%s/%s" % (pid, kind, fn), "valgrind memcheck: " + (m.group(0)[:200] if m else r.stdout[-300:]), {"cmd": "valgrind %s <script>" % exe_plain, "stderr": r.stdout[-3000:]})
+        sh.violation("%s/memcheck/%s/%s" % (pid, kind, fn), "valgrind memcheck: " + (m.group(0)[:200] if m else r.stdout[-300:]), {"cmd": "valgrind %s <script>" % exe_plain, "driver": os.path.basename(exe_plain), "variant": "plain", "memcheck": True, "env": env or {}, "script": _offending_case(cases, op), "stderr": r.stdout[-3000:]})
     elif r.returncode != 0:
         raise Inconclusive("memcheck run failed rc=%d: %s" % (r.returncode, r.stdout[-400:]))
     return sh
